@@ -15,7 +15,7 @@ func init() {
 		explanation: "The wiring that makes pass-through interception transparent, ordered and re-entrant, decided in SSA on the current source: " +
 			"R4.1 each of the three installers (found by role: the function that stores a closure into Lexer.nextToken / Parser.statementParseFn / Parser.expressionParseFn) stores a wrapper that calls the interceptor exactly once, with the wrapper's own parser/lexer argument and a `next` closure, and returns its result unchanged; `next` calls the PREVIOUSLY stored function value (loaded before the store) exactly once with the same receiver — for expressions with the wrapper's own precedence — and returns its result unchanged; " +
 			"R4.2 with that polarity (last applied = outermost) the constructor applies statement and expression interceptors in descending index order over slices the builder only appends to, so the first installed runs first; " +
-			"R4.3 the three base functions are referenced only as the initial values of the three function fields (every recursion goes through the chain), and the inside of one expression step (what the base expression function calls to parse a prefix and its continuation) is called only from the base function, from inside the step, or from API entry points the library itself never calls; the parser's NextToken calls the lexer's NextToken exactly once, which calls the chain exactly once; " +
+			"R4.3 the three base functions are referenced only as the initial values of the three function fields (every recursion goes through the chain), and the inside of one expression step (what the base expression function calls to parse a prefix and its continuation) is called only from the base function, from inside the step, or from API entry points the library itself never calls; a wrapper that takes the binding power as a parameter hands that parameter to the chain; the parser's NextToken calls the lexer's NextToken exactly once, which calls the chain exactly once; " +
 			"R4.4 the chain is entered only after the trivia skipper ran, and the base token function never skips trivia itself; " +
 			"R4.5 only the expression wrapper writes the 'requested binding power' field: it saves the old value, sets its own precedence argument, and restores the saved value on every exit through an unconditional deferred store registered before the interceptor call; ParseRemainingExpression passes the field unmodified. " +
 			"Equality of tokens/tree/errors/output with and without interceptors is not compared.",
@@ -714,6 +714,37 @@ func checkBaseReferences(c *Ctx, t *tables, a *parserAnchors, lexFld *types.Var)
 			sort.Strings(out)
 			return out
 		}()
+	}
+	// a wrapper that takes the binding power as a parameter hands that very parameter to the chain (the public
+	// ParseExpressionWithPrecedence is what re-entrant interceptors parse operands with; nothing in the library calls it)
+	for _, f := range c.libFunctions("parser") {
+		if f.Parent() != nil || f.Signature.Recv() == nil || len(f.Blocks) != 1 || f.Signature.Results().Len() != 1 {
+			continue
+		}
+		var intParams []*ssa.Parameter
+		for i, p := range f.Params {
+			if b, ok := p.Type().Underlying().(*types.Basic); ok && b.Kind() == types.Int && i > 0 {
+				intParams = append(intParams, p)
+			}
+		}
+		if len(intParams) != 1 {
+			continue
+		}
+		var chainCall *ssa.Call
+		others := 0
+		for _, in := range f.Blocks[0].Instrs {
+			if call, ok := in.(*ssa.Call); ok {
+				if _, ok := isFieldLoad(call.Call.Value, t.pt.exprFld); ok && !call.Call.IsInvoke() && len(call.Call.Args) == 2 {
+					chainCall = call
+				} else {
+					others++
+				}
+			}
+		}
+		if chainCall == nil || others > 0 {
+			continue
+		}
+		c.check(resolve(chainCall.Call.Args[1]) == ssa.Value(intParams[0]), fnName(f)+": passes its binding-power parameter to the chain", chainCall.Pos(), "the level handed to the chain is the function's own parameter", "the wrapper takes a binding power and hands something else to the expression chain: an interceptor (or plugin) that parses an operand at a level above the lowest gets the whole rest of the expression instead")
 	}
 	// recursion sites through the fields (information + floor)
 	sites := 0
